@@ -502,7 +502,7 @@ const FLAGS: &[&str] = &[
 // current directory however the root is spelled. With several roots the
 // answer must not depend on their order or on the thread schedule.
 
-const AFILES: &[&str] = &["R/t.x", "R/k.x", "R/S/t.x", "R/S/k.x", "R/S/U/t.x", "Q/t.x", "Q/S/t.x"];
+const AFILES: &[&str] = &["R/t.x", "R/k.x", "R/S/t.x", "R/S/k.x", "R/S/U/t.x", "Q/t.x", "Q/S/t.x", "R/.h.x", "R/S/.h.x", "Q/.h.x", "R/.f.", "R/.d/t.x"];
 
 /// The verdict of the rule lines on ONE path (P-relative; gitignore semantics
 /// for literal patterns; the last matching line wins).
@@ -552,7 +552,10 @@ fn anchored_layer(rg: &Path, tier: Tier) -> AnchoredResult {
         vec!["/R/t.x"], vec!["/R/S/t.x"], vec!["/R/S/U/t.x"], vec!["R/S/t.x"], vec!["R/S/U/t.x"], vec!["/R/S/"], vec!["/R/S"], vec!["/R/S/U/"],
         vec!["/Q/t.x"], vec!["/Q/S/t.x"], vec!["/Q/"], vec!["/t.x"], vec!["S/t.x"], vec!["/R/k.x"], vec!["/S/t.x"],
         vec!["t.x", "!/R/S/t.x"], vec!["t.x", "!/Q/S/t.x"], vec!["t.x", "!/R/t.x", "/R/S/U/t.x"], vec!["/R/S/t.x", "/Q/t.x"],
+        // hidden names (these rule sets are also run with --hidden)
+        vec![".h.x"], vec!["/R/S/.h.x"], vec!["/R/.d/t.x", ".f."],
     ];
+    let n_hidden_sets = 3;
     // (cwd below P, path arguments, prefix that turns a printed path into a P-relative one)
     let root_sets: Vec<(&str, Vec<&str>)> = vec![
         ("", vec!["R"]), ("", vec!["./R"]), ("", vec!["R/"]), ("", vec!["R", "Q"]), ("", vec!["Q", "R"]), ("", vec!["ABS:R"]), ("", vec!["R/S"]),
@@ -560,14 +563,18 @@ fn anchored_layer(rg: &Path, tier: Tier) -> AnchoredResult {
     ];
     let sources = ["ignore", "gitignore"];
     // work items
-    let mut work: Vec<(usize, usize, usize)> = vec![];
+    // (rule set, roots, source, --hidden)
+    let mut work: Vec<(usize, usize, usize, bool)> = vec![];
     for ri in 0..rule_sets.len() {
         for ro in 0..root_sets.len() {
             for si in 0..sources.len() {
                 if si == 1 && (ri + ro) % tier.pick(3, 1) != 0 {
                     continue;
                 }
-                work.push((ri, ro, si));
+                work.push((ri, ro, si, false));
+                if ri + n_hidden_sets >= rule_sets.len() {
+                    work.push((ri, ro, si, true));
+                }
             }
         }
     }
@@ -640,7 +647,7 @@ fn anchored_layer(rg: &Path, tier: Tier) -> AnchoredResult {
                             comps.join("/")
                         };
                         let base = rel.rsplit('/').next().unwrap_or("");
-                        if base.starts_with('.') || rel.contains(".git/") {
+                        if base == ".ignore" || base == ".gitignore" || rel.contains(".git/") {
                             continue;
                         }
                         set.insert(rel);
@@ -689,7 +696,7 @@ fn anchored_layer(rg: &Path, tier: Tier) -> AnchoredResult {
                     let _ = std::fs::remove_dir_all(pdir.join(".git"));
                     let (label, cwd, roots, extra, want): (String, &str, Vec<&str>, Vec<String>, BTreeSet<String>);
                     if i < work.len() {
-                        let (ri, ro, si) = work[i];
+                        let (ri, ro, si, hidden) = work[i];
                         let lines = &rule_sets[ri];
                         let (c, r) = &root_sets[ro];
                         let text: String = lines.iter().map(|l| format!("{}\n", l)).collect();
@@ -701,9 +708,20 @@ fn anchored_layer(rg: &Path, tier: Tier) -> AnchoredResult {
                         }
                         cwd = c;
                         roots = r.clone();
-                        extra = vec![];
-                        want = under(cwd, &roots).into_iter().filter(|(f, r)| !anchored_ignored(lines, f, r)).map(|(f, _)| f.to_string()).collect();
-                        label = format!("P/.{} {:?} | cwd P/{} | roots {:?}", sources[si], lines, c, r);
+                        extra = if hidden { vec!["--hidden".to_string()] } else { vec![] };
+                        // a hidden entry (a name starting with a dot, strictly
+                        // below the root) is skipped unless --hidden is given
+                        let is_hidden = |f: &str, root: &str| -> bool {
+                            let skip = root.split('/').filter(|c| !c.is_empty()).count();
+                            f.split('/').skip(skip).any(|c| c.starts_with('.'))
+                        };
+                        want = under(cwd, &roots)
+                            .into_iter()
+                            .filter(|(f, r)| hidden || !is_hidden(f, r))
+                            .filter(|(f, r)| !anchored_ignored(lines, f, r))
+                            .map(|(f, _)| f.to_string())
+                            .collect();
+                        label = format!("P/.{} {:?}{} | cwd P/{} | roots {:?}", sources[si], lines, if hidden { " --hidden" } else { "" }, c, r);
                         if want.len() < under(cwd, &roots).len() {
                             local.nontrivial += 1;
                         }
@@ -735,6 +753,9 @@ fn anchored_layer(rg: &Path, tier: Tier) -> AnchoredResult {
                         want = under(cwd, &roots)
                             .into_iter()
                             .map(|(f, _)| f)
+                            // a -g glob that matches overrides everything, the
+                            // hidden filter included
+                            .filter(|f| !f.split('/').any(|c| c.starts_with('.')) || incl.iter().any(|g| glob_hit(g, f)))
                             .filter(|f| !excl.iter().any(|g| glob_hit(g, f)))
                             .filter(|f| incl.is_empty() || incl.iter().any(|g| glob_hit(g, f)))
                             .map(|f| f.to_string())
@@ -938,7 +959,7 @@ pub fn run(args: &Args) -> ! {
     ev.set("scenarios", n);
     ev.set(
         "rule",
-        "tree P/R/S (P above the search root, R the root, S a subdirectory) with probe entries t.x (file), .h (hidden file), d/ (directory with a file) and controls in R and S; .git in {nowhere, P, R}. Rule = (source in {-g, .rgignore, .ignore, .gitignore, .git/info/exclude, global git ignore, --ignore-file}, placement in {P,R,S} where meaningful, ignore | whitelist, probe). Scenarios: every single rule and every conflicting pair on the same probe (thorough: half of all triples on the file probe) x repository placement, with and without --no-require-git; every single rule x each of --hidden --no-ignore --no-ignore-vcs/-dot/-exclude/-global/-parent/-files --no-require-git -u -uu -uuu alone and in pairs; -t / -T with --type-add; --max-depth 0..2; roots '.', relative, absolute, a subdirectory (so that R and P are parents), an explicit file plus a directory. Observation: `rg --files --sort path`. Oracle: a reference model of the documented precedence (overrides; .rgignore > .ignore > .gitignore > .git/info/exclude > global > --ignore-file, nearest directory first, git sources gated by the repository and --no-require-git, parents by --no-ignore-parent; then types; then hidden unless whitelisted; explicit paths always). Layer 2 (rules containing a slash): 19 rule sets in P/.ignore or P/.gitignore anchored at P (/R/t.x, /R/S/t.x, /R/S/U/t.x, R/S/t.x, directory forms, rules for a second tree Q, blanket t.x with an anchored re-include) x 15 ways of naming the roots (R, ./R, R/, absolute, R Q, Q R, R/S Q, from inside R and R/S, . ../Q ...) and 6 -g glob sets with a slash x 6 root spellings, each listed with --sort path, -j1 and -j2 — the latter under the replay scheduler, every schedule with at most one preemption (budget 60 per case) when there are several roots; reference: a rule with a slash matches exactly its path below the directory of its ignore file (below the current directory for -g), whatever the roots, their order, the depth of the entry and the schedule. distinct_nontrivial = scenarios in which the model filters at least one file.",
+        "tree P/R/S (P above the search root, R the root, S a subdirectory) with probe entries t.x (file), .h (hidden file), d/ (directory with a file) and controls in R and S; .git in {nowhere, P, R}. Rule = (source in {-g, .rgignore, .ignore, .gitignore, .git/info/exclude, global git ignore, --ignore-file}, placement in {P,R,S} where meaningful, ignore | whitelist, probe). Scenarios: every single rule and every conflicting pair on the same probe (thorough: half of all triples on the file probe) x repository placement, with and without --no-require-git; every single rule x each of --hidden --no-ignore --no-ignore-vcs/-dot/-exclude/-global/-parent/-files --no-require-git -u -uu -uuu alone and in pairs; -t / -T with --type-add; --max-depth 0..2; roots '.', relative, absolute, a subdirectory (so that R and P are parents), an explicit file plus a directory. Observation: `rg --files --sort path`. Oracle: a reference model of the documented precedence (overrides; .rgignore > .ignore > .gitignore > .git/info/exclude > global > --ignore-file, nearest directory first, git sources gated by the repository and --no-require-git, parents by --no-ignore-parent; then types; then hidden unless whitelisted; explicit paths always). Layer 2 (rules containing a slash, hidden names): 22 rule sets in P/.ignore or P/.gitignore anchored at P (/R/t.x, /R/S/t.x, /R/S/U/t.x, R/S/t.x, directory forms, rules for a second tree Q, blanket t.x with an anchored re-include, rules for hidden names .h.x / a hidden directory, run with and without --hidden; hidden entries incl. a name ending in a dot must be skipped without --hidden) x 15 ways of naming the roots (R, ./R, R/, absolute, R Q, Q R, R/S Q, from inside R and R/S, . ../Q ...) and 6 -g glob sets with a slash x 6 root spellings, each listed with --sort path, -j1 and -j2 — the latter under the replay scheduler, every schedule with at most one preemption (budget 60 per case) when there are several roots; reference: a rule with a slash matches exactly its path below the directory of its ignore file (below the current directory for -g), whatever the roots, their order, the depth of the entry and the schedule. distinct_nontrivial = scenarios in which the model filters at least one file.",
     );
     ev.set("samples", json!([{"rules": "[.ignore@R !t.x, .gitignore@S t.x]", "git": "R", "flags": ["--no-ignore-dot"]}]));
     ev.assume("patterns are plain names or literal paths; glob semantics are C04/C12's subject");
